@@ -122,11 +122,21 @@ class C07(InterpProp):
                 sc = chart_from_json(base)
             else:
                 history = {'base': base, 'edits': edits}
+        ctx0 = []
+        if rnd.random() < 0.3:
+            # a variable that only the initial context provides (the same mapping is given to both twins)
+            ctx0 = [['w', 0]]
+            ts = list(sc.transitions)
+            for t in rnd.sample(ts, min(len(ts), rnd.randint(1, 4))):
+                t.action = ((t.action + '\n') if t.action else '') + 'w = w + 1'
+            for t in rnd.sample(ts, min(len(ts), rnd.randint(1, 3))):
+                if t.guard is None:
+                    t.guard = rnd.choice(['w % 2 == 0', 'w < 3', 'w != 1'])
         sc2 = twin(sc, rnd)
         e1, e2 = ChartEnc(sc), ChartEnc(sc2)
         if ops1 is None:
             ops1 = gen.gen_ops(rnd, kn, self.n_ops)
-        ops = [['create', 0, False, [], 0], ['create', 1, False, [], 0]]
+        ops = [['create', 0, False, ctx0, 0], ['create', 1, False, ctx0, 0]]
         for op in ops1:
             ops.append(op)
             op2 = list(op)
@@ -174,6 +184,11 @@ class C07(InterpProp):
         return o
 
     def oracle(self, case, obs, res):
+        for k, (op, ob) in enumerate(zip(case.payload['ops'], obs['obs'])):
+            if op[0] == 'create' and isinstance(ob.get('r'), dict) and ob['r'].get('initial_context_modified'):
+                res.violations.append('op %d: the mapping given as initial_context to an earlier interpreter was written '
+                                      'to by its run (the next interpreter given the same mapping starts elsewhere)' % k)
+                return
         scs = case.aux['run_charts']
         tr = [list(sc.transitions) for sc in scs]
 
